@@ -645,13 +645,15 @@ impl BuiltInFunction {
                     unreachable!()
                 };
 
-                let s = if s.starts_with("0x") {
-                    s.get(2..).unwrap_or_default()
-                } else {
-                    s
+                // a `0x` marker makes the digits hexadecimal, as it does in a literal
+                let parsed = match s.strip_prefix("0x") {
+                    Some(hex) if hex.starts_with(|c: char| c.is_ascii_hexdigit()) => {
+                        i32::from_str_radix(hex, 16)
+                    }
+                    _ => s.parse::<i32>(),
                 };
 
-                if let Ok(num) = s.parse::<i32>() {
+                if let Ok(num) = parsed {
                     Ok((
                         Some(Primitive::Int(num)),
                         None,
@@ -665,13 +667,15 @@ impl BuiltInFunction {
                     unreachable!()
                 };
 
-                let s = if s.starts_with("0x") {
-                    s.get(2..).unwrap_or_default()
-                } else {
-                    s
+                // a `0x` marker makes the digits hexadecimal, as it does in a literal
+                let parsed = match s.strip_prefix("0x") {
+                    Some(hex) if hex.starts_with(|c: char| c.is_ascii_hexdigit()) => {
+                        i128::from_str_radix(hex, 16)
+                    }
+                    _ => s.parse::<i128>(),
                 };
 
-                if let Ok(num) = s.parse::<i128>() {
+                if let Ok(num) = parsed {
                     Ok((
                         Some(Primitive::BigInt(num)),
                         None,
@@ -689,12 +693,6 @@ impl BuiltInFunction {
                     unreachable!()
                 };
 
-                let s = if s.starts_with("0x") {
-                    s.get(2..).unwrap_or_default()
-                } else {
-                    s
-                };
-
                 let radix: u32 = (*radix)
                     .try_into()
                     .with_context(|| format!("`{radix}` is an invalid radix"))?;
@@ -703,6 +701,12 @@ impl BuiltInFunction {
                 if radix < 2 || radix > 36 {
                     bail!("`{radix}` is an invalid radix: expected a base from 2 to 36")
                 }
+
+                // a `0x` marker belongs to base 16 only; in any other base `x` is just not a digit
+                let s = match s.strip_prefix("0x") {
+                    Some(hex) if radix == 16 && hex.starts_with(|c: char| c.is_ascii_hexdigit()) => hex,
+                    _ => s,
+                };
 
                 if let Ok(num) = i32::from_str_radix(s, radix) {
                     Ok((
@@ -722,12 +726,6 @@ impl BuiltInFunction {
                     unreachable!()
                 };
 
-                let s = if s.starts_with("0x") {
-                    s.get(2..).unwrap_or_default()
-                } else {
-                    s
-                };
-
                 let radix: u32 = (*radix)
                     .try_into()
                     .with_context(|| format!("`{radix}` is an invalid radix"))?;
@@ -736,6 +734,12 @@ impl BuiltInFunction {
                 if radix < 2 || radix > 36 {
                     bail!("`{radix}` is an invalid radix: expected a base from 2 to 36")
                 }
+
+                // a `0x` marker belongs to base 16 only; in any other base `x` is just not a digit
+                let s = match s.strip_prefix("0x") {
+                    Some(hex) if radix == 16 && hex.starts_with(|c: char| c.is_ascii_hexdigit()) => hex,
+                    _ => s,
+                };
 
                 if let Ok(num) = i128::from_str_radix(s, radix) {
                     Ok((
